@@ -10,8 +10,8 @@ repaired `GetTimeFromTicks`, for every rounding operator `R : Rnd`): the ticks t
 are in `[0, 2^32)` because every row lies inside its interval (C30) and the encoder maps interval
 offsets into that range (C10), and on that range the decoder is monotone (C10_decode_mono).
 -/
-namespace Mkts.Props.C09
-open Mkts.VStore Mkts.Store Mkts.Time Mkts.Ticks
+namespace Mkts.Props.C09code
+open Mkts.Props.C09 Mkts.VStore Mkts.Store Mkts.Time Mkts.Ticks
 
 /-- the tick functions of the code for rounding operator `r` (the driver uses `r = rne`) -/
 def codeF (r : ℚ → ℚ) : TickFns :=
@@ -103,4 +103,4 @@ theorem C09_time_order_all (R : Rnd) (tfs : Int) (h1 : 1 ≤ tfs) (hdiv : ∃ ip
 example : (1:Int) ≤ 60 ∧ (∃ ipd : Int, ipd * 60 = 86400) ∧ (60 : Int) * 1000000000 ≠ dayNs := by
   refine ⟨by omega, ⟨1440, by omega⟩, by decide⟩
 
-end Mkts.Props.C09
+end Mkts.Props.C09code
